@@ -145,9 +145,9 @@ func checkContainer(c *mon.Ctx, rng *gen.Rng, inst, what string, src any, fresh 
 				})
 			}
 		}
-		// truncation: every offset of the first 300 bytes, a seeded sample of the rest, the last bytes
+		// truncation: the first 40 offsets, the last three, a seeded sample (about 40 / 400) of the rest
 		for cut := 0; cut < len(st); cut++ {
-			if cut > 300 && cut < len(st)-3 && rng.Intn(c.Pick(211, 23)) != 0 {
+			if cut > 40 && cut < len(st)-3 && rng.Intn(len(st)/c.Pick(40, 400)+1) != 0 {
 				continue
 			}
 			dst := fresh().(container)
@@ -197,6 +197,7 @@ func runContainers(c *mon.Ctx, cl contLib, s *slib) {
 	checkContainer(c, rng, inst, "kzg.SRS", srs, cl.freshSRS, refPk)
 	// the i-th point of the proving key corrupted
 	pool := mkPool(g1, rng, 8)
+	bads := badPoints(g1, rng, pool)
 	for mi, st := range pkStreams {
 		if st == nil {
 			continue
@@ -206,7 +207,7 @@ func runContainers(c *mon.Ctx, cl contLib, s *slib) {
 			ps = s.gr.G1.SizeU()
 		}
 		for i := 0; i < size; i++ {
-			for _, bad := range badPoints(g1, rng, pool) {
+			for _, bad := range bads {
 				cs := replaceAt(st, 4+i*ps, ps, bad.b)
 				for _, uns := range []bool{false, true} {
 					vd := s.gr.Decode(ocodec.KG1s, cs, !uns)
